@@ -26,6 +26,8 @@ LChanges == [i \in 1..Len(Ev.st.changes) |->
                 snaps |-> ToSet(Ev.st.changes[i].snaps), down |-> Ev.st.changes[i].down,
                 done |-> ToSet(Ev.st.changes[i].done)]]
 LStatus  == [s \in AllSnaps |-> Ev.st.status[s]]
+LACfg    == [new |-> ToSet(Ev.st.acfg.new), drop |-> ToSet(Ev.st.acfg.drop),
+             xsrc |-> ToSet(Ev.st.acfg.xsrc), xdst |-> ToSet(Ev.st.acfg.xdst)]
 
 \* readiness is always taken from the real change list (a change we believe live must really be unready)
 ReadyAgrees(ch) == Len(ch) = Len(LChanges) /\ \A i \in 1..Len(ch) : ch[i].ready = LChanges[i].ready
@@ -34,6 +36,7 @@ TReset ==
     /\ IsEv("Reset")
     /\ changes' = <<>> /\ Len(LChanges) = 0
     /\ status' = LStatus
+    /\ acfg' = LACfg /\ ACfgOK(LStatus, LACfg)
     /\ mon' = NoMon
 
 TRequest ==
@@ -44,11 +47,15 @@ TRequest ==
            mutated == ToSet(Ev.args.mutated)
            res == Ev.res.result
            specRes == IF Rejected(changes, op, S, from, mutated) THEN "conflict" ELSE "accepted"
-           \* lenient successor: what the OBSERVED outcome does to the requested snaps
+           \* lenient successor: what the OBSERVED outcome operates on = the requested snaps plus whatever the
+           \* tasks the real request created affect (real SnapsAffectedByTask), e.g. alias tasks for other snaps
            obsAfter == IF res # "accepted" THEN changes
-                       ELSE IF op = "refresh-from" THEN [changes EXCEPT ![from].snaps = @ \cup S, ![from].done = @ \ S]
+                       ELSE IF op = "refresh-from"
+                            THEN [changes EXCEPT ![from].snaps = @ \cup S \cup LChanges[from].snaps, ![from].done = @ \ S]
                        ELSE IF Len(LChanges) = Len(changes) THEN changes      \* refresh-all with nothing to do
-                       ELSE Append(changes, IF op = "refresh-all" THEN LChanges[Len(LChanges)] ELSE NewChange(op, S))
+                       ELSE LET real == LChanges[Len(LChanges)]
+                            IN Append(changes, IF op = "refresh-all" THEN real
+                                               ELSE [NewChange(op, S) EXCEPT !.snaps = @ \cup real.snaps])
        IN /\ res \in {"accepted", "conflict"}
           /\ NeedsOK(op, S, status)
           /\ LStatus = status
@@ -58,7 +65,7 @@ TRequest ==
                   /\ changes' = LChanges
              ELSE /\ changes' = obsAfter
                   /\ ReadyAgrees(changes')
-          /\ UNCHANGED status
+          /\ UNCHANGED <<status, acfg>>
           /\ mon' = [MonOf(op, S, from, mutated, res) EXCEPT !.same = (changes' = changes /\ Ev.st.same /\ Ev.st.nchg >= 0)]
 
 TInject ==
@@ -66,7 +73,7 @@ TInject ==
     /\ changes' = Append(changes, [kind |-> Ev.args.kind, ready |-> FALSE, snaps |-> ToSet(Ev.args.T), down |-> FALSE, done |-> {}])
     /\ Strict => changes' = LChanges
     /\ ReadyAgrees(changes')
-    /\ UNCHANGED status
+    /\ UNCHANGED <<status, acfg>>
     /\ mon' = [NoMon EXCEPT !.kind = "inject"]
 
 TProgress ==
@@ -75,7 +82,7 @@ TProgress ==
     /\ changes' = [changes EXCEPT ![Ev.args.c] = Done]
     /\ Strict => changes' = LChanges
     /\ ReadyAgrees(changes')
-    /\ UNCHANGED status
+    /\ UNCHANGED <<status, acfg>>
     /\ mon' = [NoMon EXCEPT !.kind = "progress"]
 
 \* all tasks of change c naming snap s were made ready (Done / Undone / Error / Hold); the change is still unready
@@ -86,10 +93,10 @@ TPartial ==
     /\ changes' = [changes EXCEPT ![Ev.args.c].done = @ \cup {Ev.args.s}]
     /\ Strict => changes' = LChanges
     /\ ReadyAgrees(changes')
-    /\ UNCHANGED status
+    /\ UNCHANGED <<status, acfg>>
     /\ mon' = [NoMon EXCEPT !.kind = "partial"]
 
-TInit == changes = <<>> /\ status = [s \in AllSnaps |-> "absent"] /\ mon = NoMon /\ l = 1
+TInit == changes = <<>> /\ status = [s \in AllSnaps |-> "absent"] /\ acfg = NoA /\ mon = NoMon /\ l = 1
 TNext == TReset \/ TRequest \/ TInject \/ TProgress \/ TPartial
 
 Accepted == TLCGet("stats").diameter - 1 = Len(Trace)
